@@ -102,7 +102,8 @@ def system_part(chk: Check, wd, tier: str, seed: int):
     sfile = wd / "script.json"
     sfile.write_text(json.dumps(script))
     states = runs = 0
-    for fmt in ("ebyte", "usb", "yd"):
+    fmts = ("ebyte", "usb", "yd", "actisense")
+    for fmt in fmts:
         # the bytes the specification renders for the script
         empty, out0 = wd / f"sys-empty-{fmt}.json", wd / f"sys-stream-{fmt}.json"
         empty.write_text("[]")
@@ -112,7 +113,7 @@ def system_part(chk: Check, wd, tier: str, seed: int):
         chk.gate(len(stream) >= 60, f"the rendered stream has only {len(stream)} bytes")
         names = list(sr.CFGS)
         # quick: one decoder configuration per format (all three are used), thorough: every combination
-        for cfgname in (names if tier == "thorough" else [names[(("ebyte", "usb", "yd").index(fmt) + seed) % 3]]):
+        for cfgname in (names if tier == "thorough" else [names[(fmts.index(fmt) + seed) % 3]]):
             cfg = f"MC_System_{fmt}_{cfgname}.cfg"
             if tier != "selftest":
                 r = run_tlc("MC_System", cfg, name=f"MC_System-{fmt}-{cfgname}", env={"SCRIPT_FILE": str(sfile)}, timeout=3000, heap="3g")
@@ -120,7 +121,7 @@ def system_part(chk: Check, wd, tier: str, seed: int):
                     chk.violation(f"spec/system/{inv}", f"TLC: {inv} violated in MC_System ({cfg})", {"tlc": r.error_text(60)})
                 chk.gate(r.distinct > 500, f"MC_System explored only {r.distinct} states ({cfg})")
                 states += r.distinct
-            behs = simulate("MC_System", cfg, num={"quick": 40, "thorough": 160, "selftest": 8}[tier], depth=60, seed=seed + 11,
+            behs = simulate("MC_System", cfg, num={"quick": 32, "thorough": 160, "selftest": 8}[tier], depth=60, seed=seed + 11,
                             env={"SCRIPT_FILE": str(sfile)}, name=f"MC_System-{fmt}-{cfgname}", only={"ev"})
             recs, meta = [], []
             for b, beh in enumerate(behs):
